@@ -974,6 +974,8 @@ def worker(case, led):
     tag = case[0]
     if tag == "kry":
         worker_kry(case, led)
+    elif tag == "kryalias":
+        worker_kry_alias(case, led)
     elif tag == "dav":
         worker_dav(case, led)
     elif tag == "ivp":
@@ -988,6 +990,43 @@ def worker(case, led):
         worker_util(case, led)
     else:
         raise ValueError(case)
+
+
+def worker_kry_alias(case, led):
+    """operators given as callables that hand back their argument (the identity), a view of it, or a block that is the identity on part of the vector: legal
+    representations of a Hermitian A - the result is exp(dt A) v and the start vector is untouched"""
+    _, n, seed, tier = case
+    from renormalizer.lib.krylov.krylov import expm_krylov
+    rng = np.random.default_rng([seed, 188, n])
+    d = rng.uniform(-1.0, 1.0, size=n)
+    half = n // 2
+    ops = [("returns its argument", lambda x: x, np.ones(n)), ("returns a view of its argument", lambda x: x[:], np.ones(n)),
+           ("diagonal, fresh array", lambda x: d * x, d)]
+    if half >= 1:
+        dd = np.concatenate([np.ones(half), d[half:]])
+
+        def part(x, dd=dd):
+            y = x.copy()
+            y[half:] = dd[half:] * x[half:]
+            return y
+        ops.append(("identity on the first half", part, dd))
+    for name, f, diag in ops:
+        for dt in (0.5, -0.5j, 0.25j):
+            for cplx in (False, True):
+                v = rng.standard_normal(n) + (1j * rng.standard_normal(n) if cplx else 0)
+                keep = v.copy()
+                key = ("kryalias", n, name, str(dt), cplx, seed)
+                rep = {"n": n, "operator": name, "dt": str(dt), "complex_start": cplx, "seed": seed, "how": "expm_krylov(f, dt, v) with f as named; reference exp(dt * diag) * v"}
+                try:
+                    r, _k = expm_krylov(f, dt, v)
+                except Exception as e:
+                    led.check(False, "post:expm_krylov:returns", "expm_krylov", f"raised {type(e).__name__}: {e} for an operator that {name}", key, {"operator": name}, rep)
+                    continue
+                ref = np.exp(dt * diag) * keep
+                err = float(np.linalg.norm(np.asarray(r) - ref))
+                led.check(err <= 1e-6 * float(np.linalg.norm(keep)), "post:expm_krylov:accuracy_for_operators_that_alias_their_argument", "expm_krylov",
+                          f"operator that {name}: ||result - exp(dt A) v|| = {err:.3e} (||v|| = {np.linalg.norm(keep):.3e})", key, {"operator": name}, rep)
+                led.check(np.array_equal(v, keep), "frame:expm_krylov:start_vector_unchanged", "expm_krylov", "vstart modified in place", key + ("frame",), {"operator": name}, rep)
 
 
 def kry_sizes(tier):
@@ -1009,6 +1048,9 @@ def enumerate_cases(run):
                     ics = range(len(COMBOS)) if not quick else sorted({(n + len(fam) + int(cplx) + s) % 4, (n + len(fam) + int(cplx) + s + 2 + n % 2) % 4})
                     for ic in ics:
                         cases.append(("kry", fam, n, cplx, ic, s, tier))
+    for s in seeds:
+        for n in (1, 2, 3, 7, 20):
+            cases.append(("kryalias", n, s, tier))
     # vendored ODE solver: autonomous and explicitly time-dependent right-hand sides
     for s in seeds:
         for method in ("RK45", "RK23"):
